@@ -13,3 +13,5 @@ from . import c_meta             # noqa: F401
 from . import c_frozen           # noqa: F401
 from . import c_charset          # noqa: F401
 from . import b_charset          # noqa: F401
+from . import c_strings          # noqa: F401
+from . import b_strings          # noqa: F401
